@@ -15,6 +15,7 @@ import difflib
 import logging
 import os
 import typing
+import uuid
 
 import pydantic.typing
 import re
@@ -50,6 +51,29 @@ def ConfigurationToDict(cfg):
                 config[section][name] = ''
 
     return config
+
+
+def yaml_dump_atomically(data, path, **kwargs):
+    """Stores data in YAML format under path so that path always contains either its complete previous
+    contents or its complete new contents (i.e. even if the process terminates, or an I/O error occurs, mid-way).
+
+    Args:
+        data: The object to store
+        path: The path to the file
+        **kwargs: Arguments to experiment.model.frontends.flowir.yaml_dump()
+    """
+    tempname = os.path.join(os.path.dirname(path), '.%s-%s.tmp' % (os.path.basename(path), uuid.uuid4()))
+
+    try:
+        with open(tempname, 'w') as f:
+            experiment.model.frontends.flowir.yaml_dump(data, f, **kwargs)
+        os.replace(tempname, path)
+    except Exception:
+        try:
+            os.remove(tempname)
+        except OSError:
+            pass
+        raise
 
 
 def ConfigurationFileToJson(filename):
@@ -632,8 +656,7 @@ class FlowIRExperimentConfiguration:
 
         if create_instance_files and (exists_manifest is False or update_instance_files is True):
             try:
-                with open(manifest_file, 'w') as f:
-                    experiment.model.frontends.flowir.yaml_dump(self.manifestData, f)
+                yaml_dump_atomically(self.manifestData, manifest_file)
             except Exception as e:
                 out_errors.append(e)
 
@@ -678,14 +701,12 @@ class FlowIRExperimentConfiguration:
         This is version of FlowIR without any component replication
         """
         instance_file = os.path.join(self._conf_dir, 'flowir_instance.yaml')
-        with open(instance_file, 'w') as f:
-            primitive = self._unreplicated.instance(ignore_errors=True, inject_missing_fields=False,
-                                                    fill_in_all=False, is_primitive=True)
-            # primitive = experiment.model.frontends.flowir.FlowIR.compress_flowir(primitive)
-            pretty_primitive = experiment.model.frontends.flowir.FlowIR.pretty_flowir_sort(primitive)
-            experiment.model.frontends.flowir.yaml_dump(
-                pretty_primitive, f, sort_keys=False, default_flow_style=False
-            )
+        primitive = self._unreplicated.instance(ignore_errors=True, inject_missing_fields=False,
+                                                fill_in_all=False, is_primitive=True)
+        # primitive = experiment.model.frontends.flowir.FlowIR.compress_flowir(primitive)
+        pretty_primitive = experiment.model.frontends.flowir.FlowIR.pretty_flowir_sort(primitive)
+        # VV: The controller rewrites this file after every iteration of a DoWhile - never truncate it in place
+        yaml_dump_atomically(pretty_primitive, instance_file, sort_keys=False, default_flow_style=False)
 
     @property
     def configurationDirectory(self):
